@@ -19,6 +19,7 @@ import (
 	sdk "github.com/cosmos/cosmos-sdk/types"
 	authtypes "github.com/cosmos/cosmos-sdk/x/auth/types"
 	banktypes "github.com/cosmos/cosmos-sdk/x/bank/types"
+	distrtypes "github.com/cosmos/cosmos-sdk/x/distribution/types"
 
 	"github.com/osmosis-labs/osmosis/osmomath"
 	clmodel "github.com/osmosis-labs/osmosis/v31/x/concentrated-liquidity/model"
@@ -51,6 +52,7 @@ type c20Denom struct {
 	denom   string
 	creator int
 	admin   int // -1 = renounced
+	emptyAdmin bool // renounced with an empty admin string in the store
 	prev    []int
 }
 
@@ -441,10 +443,10 @@ func runC20(c *vk.Ctx) {
 					// nobody else's denom changed hands
 					for _, od := range w.sortedDenoms() {
 						m, _ := ch.App.TokenFactoryKeeper.GetAuthorityMetadata(ch.Ctx, od.denom)
-						want := ""
-						if od.admin >= 0 {
-							want = w.users[od.admin].Addr.String()
+						if od.admin < 0 {
+							continue
 						}
+						want := w.users[od.admin].Addr.String()
 						if m.Admin != want {
 							c.Violate("C20.create_denom_namespace", map[string]any{"msg": "MsgCreateDenom"}, "after CreateDenom by %s the admin of %s is %q, expected %q", ua.Addr, od.denom, m.Admin, want)
 							return
@@ -455,6 +457,8 @@ func runC20(c *vk.Ctx) {
 					for _, o := range w.users {
 						w.must(&tftypes.MsgMint{Sender: ua.Addr.String(), Amount: coin(d, 1_000_000), MintToAddress: o.Addr.String()})
 					}
+					// the community pool (distribution module account, no bank permissions) holds some of it too
+					w.must(&distrtypes.MsgFundCommunityPool{Amount: sdk.NewCoins(coin(d, 5_000)), Depositor: ua.Addr.String()})
 					c.Class("MsgCreateDenom|namespace|%d-denoms", bucket(len(w.denoms)))
 				}
 				// somebody else's namespace: the same subdenom again, and a sub-denom that spells another creator's denom
@@ -469,15 +473,32 @@ func runC20(c *vk.Ctx) {
 						c.Class("MsgCreateDenom|same-subdenom-other-namespace")
 					}
 				}
-			case k == 11: // change admin / renounce
+			case k == 11 || k == 13: // change admin / renounce
 				for _, d := range w.sortedDenoms() {
 					if d.admin != u {
 						continue
 					}
 					if r.Intn(3) == 0 {
-						if w.must(&tftypes.MsgChangeAdmin{Sender: ua.Addr.String(), Denom: d.denom, NewAdmin: ""}).OK() {
-							d.prev = append(d.prev, d.admin)
-							d.admin = -1
+						// renouncing: this version's ValidateBasic refuses an empty NewAdmin, so an administrator
+						// gives the powers up by handing them to an address nobody holds a key for; the empty
+						// admin that genesis states and older versions can carry is written to the store directly
+						if r.Bool() {
+							dead := sdk.AccAddress(make([]byte, 20))
+							if w.must(&tftypes.MsgChangeAdmin{Sender: ua.Addr.String(), Denom: d.denom, NewAdmin: dead.String()}).OK() {
+								d.prev = append(d.prev, d.admin)
+								d.admin = -1
+							}
+						} else {
+							bz, _ := (&tftypes.DenomAuthorityMetadata{Admin: ""}).Marshal()
+							if bz == nil {
+								bz = []byte{}
+							}
+							ch.Ctx.KVStore(ch.App.AppKeepers.GetKey(tftypes.StoreKey)).Set(append(tftypes.GetDenomPrefixStore(d.denom), []byte(tftypes.DenomAuthorityMetadataKey)...), bz)
+							if m, err := ch.App.TokenFactoryKeeper.GetAuthorityMetadata(ch.Ctx, d.denom); err == nil && m.Admin == "" {
+								d.prev = append(d.prev, d.admin)
+								d.admin = -1
+								d.emptyAdmin = true
+							}
 						}
 					} else {
 						to := (u + 1 + r.Intn(3)) % 4
@@ -612,6 +633,9 @@ func runC20(c *vk.Ctx) {
 					}
 				} else {
 					state = "renounced"
+					if d.emptyAdmin {
+						state = "renounced-empty-admin"
+					}
 				}
 				prev := append([]int{}, d.prev...)
 				if d.admin != d.creator {
@@ -620,7 +644,7 @@ func runC20(c *vk.Ctx) {
 				holder := w.users[r.Intn(4)].Addr
 				to := w.users[r.Intn(4)].Addr
 				var msg sdk.Msg
-				switch r.Intn(7) {
+				switch r.Intn(8) {
 				case 0:
 					msg = &tftypes.MsgMint{Amount: coin(d.denom, 1+r.I64n(1e6)), MintToAddress: to.String()}
 				case 1:
@@ -629,7 +653,7 @@ func runC20(c *vk.Ctx) {
 					msg = &tftypes.MsgBurn{Amount: coin(d.denom, 1+r.I64n(1000))} // from self
 				case 3:
 					msg = &tftypes.MsgForceTransfer{Amount: coin(d.denom, 1+r.I64n(1000)), TransferFromAddress: holder.String(), TransferToAddress: to.String()}
-				case 4:
+				case 4, 7:
 					msg = &tftypes.MsgChangeAdmin{Denom: d.denom, NewAdmin: to.String()}
 				case 5:
 					msg = &tftypes.MsgSetDenomMetadata{Metadata: banktypes.Metadata{Description: "x", Base: d.denom, Display: d.denom, Name: "n", Symbol: "S", DenomUnits: []*banktypes.DenomUnit{{Denom: d.denom, Exponent: 0}}}}
